@@ -235,6 +235,10 @@ def monopole(ctx):
             def displacement(self, x):
                 log.append(('displacement', np.array(x, dtype=object)))
                 return np.array([[sp.Function('u%d' % j)(*row) for j in range(3)] for row in np.asarray(x, dtype=object)], dtype=object)
+        # the solution's own axes: the line direction points along the *negative* Cartesian axis for odd assignments of m and n (m x n = -e_line)
+        setattr(Sol, 'ξ', arr([-1 if i == line else 0 for i in range(3)]))
+        Sol.m = arr([1 if i == (line + 2) % 3 else 0 for i in range(3)])
+        Sol.n = arr([1 if i == (line + 1) % 3 else 0 for i in range(3)])
 
         class Shape(PyStub):
             def outside(self, pos):
@@ -512,7 +516,8 @@ def array(ctx):
     ok = [int(v) for v in disl.atoms.atype] == [1, 4, 3] and tuple(disl.symbols) == ('Al', 'Cu', 'Al', 'Cu')
     ctx.ob('ARRAY', locp, 'atoms outside the inward-moved cut faces get type + natypes; symbols doubled', ok, str([int(v) for v in disl.atoms.atype]), node=pfn, key='retype')
     TS = symarray('t', (3,), real=True)
-    for tag, kw, want_call, want_shift in (('shiftindex=0', dict(shiftindex=0), (None, 0, False), TS), ('shift vector', dict(shift='V'), ('V', None, False), TS), ('neither', {}, None, SH)):
+    for tag, kw, want_call, want_shift in (('shiftindex=0', dict(shiftindex=0), (None, 0, False), TS), ('shift vector', dict(shift='V'), ('V', None, False), TS),
+                                           ('shift vector, box-relative', dict(shift='V', shiftscale=True), ('V', None, True), TS), ('neither', {}, None, SH)):
         del log[:]
         base.atoms.pos = P.copy()
         disl.atoms.atype = arr([1, 2, 1])
